@@ -2,7 +2,8 @@
    consistently (Elem/ComposeHands.v) and the hand-overs a pipeline shows at boundary k are what stage k forwarded. *)
 From Coq Require Import ZArith QArith List Bool Lia Arith.
 From ONL Require Import Elem.Packet Elem.StoreQ Elem.Wire Elem.Port Elem.Bucket Elem.SchedBase
-  Elem.Iface Elem.Compose Elem.ComposeHands Elem.AdaptWire Elem.AdaptPort Elem.AdaptBucket Elem.AdaptSched.
+  Elem.WFQServer Elem.WFQ Elem.VC Elem.DRR
+  Elem.Iface Elem.Compose Elem.ComposeHands Elem.AdaptWire Elem.AdaptPort Elem.AdaptBucket Elem.AdaptSched Elem.AdaptSrv Elem.AdaptDRR.
 Import ListNotations.
 Local Close Scope Q_scope.
 
@@ -55,4 +56,32 @@ Proof.
   apply atomic_tagged; [cbn; lia| |].
   - intros p s s' o H. cbn [put mq_elem] in H. eapply slift_no_hand; eauto.
   - intros l s s' o H. cbn [step mq_elem] in H. destruct (mq_internal l); [|discriminate]. eapply slift_no_hand; eauto.
+Qed.
+
+Lemma flift_no_hand S (r : res (srv S * list fout)) s o : flift S r = Some (s, o) -> Forall no_hand o.
+Proof.
+  unfold flift. destruct r as [[w' o']| |]; try discriminate. intros H. injection H as _ <-.
+  induction o' as [|x o' IH]; cbn; constructor; auto. destruct x; exact I.
+Qed.
+Theorem srv_elem_tagged S rate st0 confb : tagged (srv_elem S rate st0 confb).
+Proof.
+  apply atomic_tagged; [cbn; lia| |].
+  - intros p s s' o H. cbn [put srv_elem] in H. destruct (confb p); [|discriminate]. exact (flift_no_hand _ _ _ _ H).
+  - intros l s s' o H. cbn [step srv_elem] in H. destruct (srv_internal l); [|discriminate]. exact (flift_no_hand _ _ _ _ H).
+Qed.
+Corollary wfq_elem_tagged cfg : tagged (wfq_elem cfg).
+Proof. apply srv_elem_tagged. Qed.
+Corollary vc_elem_tagged cfg : tagged (vc_elem cfg).
+Proof. apply srv_elem_tagged. Qed.
+
+Lemma dlift_no_hand r s o : dlift r = Some (s, o) -> Forall no_hand o.
+Proof.
+  unfold dlift. destruct r as [[w' o']|]; [|discriminate]. intros H. injection H as _ <-.
+  apply no_hand_flat. intros []; cbn; repeat constructor.
+Qed.
+Theorem drr_elem_tagged c t0 : tagged (drr_elem c t0).
+Proof.
+  apply atomic_tagged; [cbn; lia| |].
+  - intros p s s' o H. cbn [put drr_elem] in H. eapply dlift_no_hand; eauto.
+  - intros l s s' o H. cbn [step drr_elem] in H. destruct (drr_internal l); [|discriminate]. eapply dlift_no_hand; eauto.
 Qed.
